@@ -60,7 +60,7 @@ Print Assumptions C08_value_unique.
 
 (* DeferredCycle, from a clean start, is only ever raised when the start node reaches a cycle of the graph
    (through dependencies or yielded objects), or when a chain of yielded objects is at least `bound` long
-   (the `len(seen) >= 1000` clause). *)
+   (the `len(seen) >= N` clause; N = Gen.GenPartial.wait_seen_bound). *)
 Theorem C08_cycle_reported_only_for_cycles :
   forall (G : graph) (bound : nat) (spec : bool) (fuel : nat) (i : nat) (st' : state),
     wait bound spec G fuel (init_state G) i = RRaise ECycle st' ->
@@ -109,15 +109,15 @@ Print Assumptions C08_speculation_never_fatal.
    yielded object; 'a = a' and 'a = b+1 / b = a+1' end in DeferredCycle with the model's own fuel bound *)
 Example C08_example_value :
   let G := [NFn [1] (fun vs => NVal (1 + fold_left Z.add vs 0)%Z); NConst (NVal 5%Z); NFn [] (fun _ => NFwd 0)] in
-  match wait py_bound false G (fuel_bound py_bound G) (init_state G) 2 with RVal 6%Z _ => True | _ => False end.
+  match wait wait_seen_bound false G (fuel_bound wait_seen_bound G) (init_state G) 2 with RVal 6%Z _ => True | _ => False end.
 Proof. vm_compute. exact I. Qed.
 Example C08_example_self_cycle :
   let G := [NFn [] (fun _ => NFwd 0)] in
-  match wait py_bound false G (fuel_bound py_bound G) (init_state G) 0 with RRaise ECycle _ => True | _ => False end.
+  match wait wait_seen_bound false G (fuel_bound wait_seen_bound G) (init_state G) 0 with RRaise ECycle _ => True | _ => False end.
 Proof. vm_compute. exact I. Qed.
 Example C08_example_mutual_cycle :
   let G := [NFn [1] (fun vs => NVal (1 + fold_left Z.add vs 0)%Z); NFn [0] (fun vs => NVal (1 + fold_left Z.add vs 0)%Z)] in
-  match wait py_bound false G (fuel_bound py_bound G) (init_state G) 0 with RRaise ECycle _ => True | _ => False end.
+  match wait wait_seen_bound false G (fuel_bound wait_seen_bound G) (init_state G) 0 with RRaise ECycle _ => True | _ => False end.
 Proof. vm_compute. exact I. Qed.
 
 (* ---- (2) Python partial operations under the guards the code has now -------------------------------------- *)
